@@ -891,6 +891,11 @@ def rand_index(rng, n):
 
 
 def rand_slice(rng, n):
+    if n >= 2 and rng.random() < 0.12:
+        # a reversed slice with BOTH bounds explicit and non-negative (xs[hi:lo:-1]): the exclusive lower bound stays
+        lo = rng.randint(0, n - 2)
+        hi = rng.randint(lo + 1, n)
+        return [hi, lo, rng.choice([-1, -1, -2])]
     e = lambda: rng.choice([None, None, 0, n, rng.randint(-n - 2, n + 2), rng.randint(0, n + 1)])
     step = rng.choice([None, None, None, 1, 1, 2, -1, -2, 3, 0] if rng.random() < 0.5 else [None, 1])
     return [e(), e(), step]
